@@ -298,6 +298,14 @@ class CSSImportRule(cssrule.CSSRule):
 
             # all possible exceptions are ignored
             try:
+                # a sheet (indirectly) importing itself would recurse without end
+                ancestor = self.parentStyleSheet
+                while ancestor is not None:
+                    if ancestor.href == fullhref:
+                        raise OSError('Cyclic @import.')
+                    owner = ancestor.ownerRule
+                    ancestor = owner.parentStyleSheet if owner is not None else None
+
                 usedEncoding, enctype, cssText = self.parentStyleSheet._resolveImport(
                     fullhref
                 )
